@@ -98,6 +98,11 @@ class Check:
         else:
             self.undecided(rule, key, construct, detail, where)
 
+    def renamed(self, mapping: Dict[str, str]) -> "RenamedCheck":
+        """A view of this check under which a clause written for another property records its obligations with this
+        property's rule ids (a clause two properties rely on is run - and reported - under both)."""
+        return RenamedCheck(self, mapping)
+
     # ------------------------------------------------------------------ finishing
     def _known(self) -> Dict[str, Dict[str, Any]]:
         p = VERIF / "known_findings.json"
@@ -238,3 +243,36 @@ def write_error_evidence(pid: str, tier: str, seed: int, msg: str, t0: float) ->
         "wall_s": round(time.time() - t0, 3), "violations": 0,
     }
     (d / f"{pid}.json").write_text(json.dumps(ev, indent=1))
+
+
+class RenamedCheck:
+    def __init__(self, chk: Check, mapping: Dict[str, str]):
+        self._chk = chk
+        self._map = dict(mapping)
+
+    def _r(self, text: str) -> str:
+        for a, b in self._map.items():
+            if text == a or text.startswith(a + ":"):
+                return b + text[len(a):]
+        return text
+
+    def __getattr__(self, name):
+        return getattr(self._chk, name)
+
+    def rule(self, rid, text, minimum=1):
+        self._chk.rule(self._r(rid), text, minimum)
+
+    def ok(self, rule, key, construct, detail="", where=""):
+        self._chk.ok(self._r(rule), self._r(key), construct, detail, where)
+
+    def fail(self, rule, key, construct, detail, witness=None, where=""):
+        self._chk.fail(self._r(rule), self._r(key), construct, detail, witness, where)
+
+    def undecided(self, rule, key, construct, detail="", where=""):
+        self._chk.undecided(self._r(rule), self._r(key), construct, detail, where)
+
+    def info(self, rule, key, construct, detail="", where=""):
+        self._chk.info(self._r(rule), self._r(key), construct, detail, where)
+
+    def verdict(self, cond, rule, key, construct, detail="", witness=None, where=""):
+        self._chk.verdict(cond, self._r(rule), self._r(key), construct, detail, witness, where)
